@@ -48,6 +48,12 @@ def run(rep, tier, seed, model_ok):
             scs.append(h2.Scenario([("g%d.rs" % j, b) for j, b in enumerate(files[i:i + 10])], "edit",
                                    structured=structured, macros=gen.MACROS_ARG, lock=h2.lock_bytes(1000000),
                                    name="generated"))
+    # (b2) deterministic: statements that already carry a reference in every place one can stand
+    for structured in (False, True):
+        b, want = gen.referenced_matrix(structured)
+        oracle[(structured, b)] = want
+        scs.append(h2.Scenario([("referenced.rs", b)], "edit", structured=structured, macros=gen.MACROS_ARG,
+                               lock=h2.lock_bytes(1000000), name="generated"))
     # (c) malformed / mutated / multi-byte / CRLF / large
     mal = gen.malformed_files(rng, 60 if quick else 500)
     for structured in (False, True):
